@@ -25,8 +25,9 @@ theorem Frm.noVal {t t' : Tok} (f : Frm t t') (h : NoVal t) : NoVal t' := by
 theorem Frm.trans {a b c : Tok} (h1 : Frm a b) (h2 : Frm b c) : Frm a c :=
   ⟨h2.md.trans h1.md, h2.fl.trans h1.fl, h2.hs⟩
 
-/-- bytes that may follow a complete value: white space, ',', ']', '}' or the terminating NUL -/
-def Follow (b : UInt8) : Prop := isWs b = true ∨ b = 44 ∨ b = 93 ∨ b = 125 ∨ b = 0
+/-- bytes that may follow a complete value: white space, ',', ']', '}', the terminating NUL, or
+(default mode: a comment directly after the value) '/' -/
+def Follow (b : UInt8) : Prop := isWs b = true ∨ b = 44 ∨ b = 93 ∨ b = 125 ∨ b = 0 ∨ b = 47
 
 /-- one consumed byte, as a rewriting rule for `run` -/
 theorem run_consume (lc : Libc) (t : Tok) (l : Loc) (b : UInt8) (t' : Tok) (l' : Loc) (hv : NoVal t) (hb : b ≠ 0)
